@@ -51,3 +51,25 @@ def register(R, tier="quick"):
                               "{1,2,3,4,16}, 0-2 segment cuts, 0-2 deletions): quick 480 corpora, thorough 8000; every "
                               "skip target / threshold / position enumerated per corpus",
                         note="real matchers/collectors/searcher vs an independent evaluator; see bounded/matchers_bounded.py")
+
+
+    def qfn(tier_, seed):
+        key = ("q", tier_, seed)
+        if key not in _cache:
+            _cache[key] = run_native("queries_bounded.py", [1000 if tier_ == "quick" else 20000, seed, 16])
+        out = dict(_cache[key])
+        fs = []
+        for f in out.get("failures", []):
+            f = dict(f)
+            f["snippet"] = ("import runpy, sys\nsys.argv = ['queries_bounded.py', '--corpus', %r]\n"
+                            "runpy.run_path(%r, run_name='__main__')\n"
+                            % (json.dumps(f["corpus"]), os.path.join(ROOT, "bounded", "queries_bounded.py")))
+            fs.append(f)
+        out["failures"] = fs
+        return out
+    R.bounded_check("queries-bounded@C01", ["C01"], qfn,
+                    bound="random corpora (<= 8 docs of <= 6 tokens over a 16-word vocabulary, 0-2 segment cuts, 0-1 deletion) x "
+                          "~22 generated queries each: Phrase (2-3 words, slop 1-3), Prefix, Wildcard, Regex (incl. trailing "
+                          "?/* quantifiers), TermRange (open/closed/unbounded), NumericRange (8-bit signed, step 2), Every; "
+                          "quick 1000 corpora, thorough 20000",
+                    note="matched set through search / docs_for_query / Query.docs / len(limit=1) vs brute-force evaluators")
